@@ -1,9 +1,11 @@
 package main
 
-// A scripted server plugin (frp's HTTP plugin protocol) registered for the NewWorkConn operation: per
-// request it answers "unchange", rewrites privilege_key/timestamp of the content, or rejects.
+// A scripted server plugin (frp's HTTP plugin protocol) registered for the Login and NewWorkConn operations: per
+// request it answers "unchange", rewrites fields of the content, or rejects.  It also records the content it was asked
+// about (the Login a virtual client of the ssh gateway really sent: key, timestamp, pool count).
 
 import (
+	"bytes"
 	"encoding/json"
 	"net"
 	"net/http"
@@ -12,17 +14,33 @@ import (
 
 type plugBehaviour struct {
 	kind string // same | rewrite | reject
-	key  string
+	key  string // NewWorkConn / Login: new privilege_key (rewrite; setKey)
 	ts   int64
+	// Login only
+	setKey  bool
+	setUser bool
+	user    string
+}
+
+type seenLogin struct {
+	Key   string
+	TS    int64
+	Pool  int64
+	User  string
+	RunID string
+	Pass  bool
+	Type  string
 }
 
 type plugStub struct {
-	addr  string
-	ln    net.Listener
-	srv   *http.Server
-	mu    sync.Mutex
-	next  plugBehaviour
-	calls int
+	addr      string
+	ln        net.Listener
+	srv       *http.Server
+	mu        sync.Mutex
+	next      plugBehaviour // NewWorkConn
+	nextLogin plugBehaviour
+	calls     int
+	logins    []seenLogin
 }
 
 func (p *plugStub) set(b plugBehaviour) {
@@ -31,25 +49,74 @@ func (p *plugStub) set(b plugBehaviour) {
 	p.mu.Unlock()
 }
 
+func (p *plugStub) setLogin(b plugBehaviour) {
+	p.mu.Lock()
+	p.nextLogin = b
+	p.mu.Unlock()
+}
+
+func (p *plugStub) lastLogin() (seenLogin, bool) {
+	p.mu.Lock()
+	defer p.mu.Unlock()
+	if len(p.logins) == 0 {
+		return seenLogin{}, false
+	}
+	return p.logins[len(p.logins)-1], true
+}
+
+func (p *plugStub) loginCalls() int {
+	p.mu.Lock()
+	defer p.mu.Unlock()
+	return len(p.logins)
+}
+
 func (p *plugStub) close() { p.srv.Close() }
+
+func num(v any) int64 {
+	if n, ok := v.(json.Number); ok {
+		i, _ := n.Int64()
+		return i
+	}
+	return 0
+}
+
+func str(v any) string {
+	s, _ := v.(string)
+	return s
+}
 
 func newPlugStub(addr string) (*plugStub, error) {
 	ln, err := net.Listen("tcp", net.JoinHostPort(addr, "0"))
 	if err != nil {
 		return nil, err
 	}
-	p := &plugStub{ln: ln, addr: ln.Addr().String(), next: plugBehaviour{kind: "same"}}
+	p := &plugStub{ln: ln, addr: ln.Addr().String(), next: plugBehaviour{kind: "same"}, nextLogin: plugBehaviour{kind: "same"}}
 	mux := http.NewServeMux()
 	mux.HandleFunc("/handler", func(rw http.ResponseWriter, r *http.Request) {
+		var buf bytes.Buffer
+		_, _ = buf.ReadFrom(r.Body)
+		dec := json.NewDecoder(bytes.NewReader(buf.Bytes()))
+		dec.UseNumber()
 		var req struct {
-			Content struct {
-				User  json.RawMessage `json:"user"`
-				RunID string          `json:"run_id"`
-			} `json:"content"`
+			Op      string         `json:"op"`
+			Content map[string]any `json:"content"`
 		}
-		_ = json.NewDecoder(r.Body).Decode(&req)
+		_ = dec.Decode(&req)
+		if req.Content == nil {
+			req.Content = map[string]any{}
+		}
 		p.mu.Lock()
 		b := p.next
+		if req.Op == "Login" {
+			b = p.nextLogin
+			sl := seenLogin{Key: str(req.Content["privilege_key"]), TS: num(req.Content["timestamp"]), Pool: num(req.Content["pool_count"]),
+				User: str(req.Content["user"]), RunID: str(req.Content["run_id"])}
+			if cs, ok := req.Content["client_spec"].(map[string]any); ok {
+				sl.Pass, _ = cs["always_auth_pass"].(bool)
+				sl.Type = str(cs["type"])
+			}
+			p.logins = append(p.logins, sl)
+		}
 		p.calls++
 		p.mu.Unlock()
 		rw.Header().Set("Content-Type", "application/json")
@@ -57,12 +124,21 @@ func newPlugStub(addr string) (*plugStub, error) {
 		case "reject":
 			_ = json.NewEncoder(rw).Encode(map[string]any{"reject": true, "reject_reason": "revoked by the c04 plugin stub"})
 		case "rewrite":
-			user := req.Content.User
-			if len(user) == 0 {
-				user = json.RawMessage(`{}`)
+			c := req.Content
+			if req.Op == "Login" {
+				if b.setKey {
+					c["privilege_key"], c["timestamp"] = b.key, b.ts
+				}
+				if b.setUser {
+					c["user"] = b.user
+				}
+			} else {
+				if _, ok := c["user"]; !ok {
+					c["user"] = map[string]any{}
+				}
+				c["privilege_key"], c["timestamp"] = b.key, b.ts
 			}
-			_ = json.NewEncoder(rw).Encode(map[string]any{"reject": false, "unchange": false, "content": map[string]any{
-				"user": user, "run_id": req.Content.RunID, "privilege_key": b.key, "timestamp": b.ts}})
+			_ = json.NewEncoder(rw).Encode(map[string]any{"reject": false, "unchange": false, "content": c})
 		default:
 			_ = json.NewEncoder(rw).Encode(map[string]any{"reject": false, "unchange": true})
 		}
